@@ -202,53 +202,41 @@ def check_claimed_stack(w, parsed):
 
 
 def check_per_test_hooks(w, events, skipped_layers=()):
-    """events of ONE pid."""
+    """events of ONE pid.  Brackets are delimited exactly by the 'run'/'ran' events the world's test classes
+    emit around ``TestCase.run`` (this also covers tests that never start)."""
     viol = []
     counter = {}
-    S = []          # testSetUp order of the current bracket
-    T = []          # testTearDown order of the current bracket
-    cur = None      # test id of the current bracket (None: no test started yet in this bracket)
-    test_events_after_td = False
+    cur = None          # id of the test whose run() is active
+    S, T = [], []       # layers in call order inside the current bracket
+    started = False     # the test's own setUp was reached
+    last_phase_after_T = False
+    setup_after_start = False
+
+    def names(xs):
+        return [w.names[j] for j in xs]
 
     def close():
-        nonlocal S, T, cur, test_events_after_td
-        if not S and not T and cur is None:
+        rec = w.tests.get(cur)
+        if rec is None:
             return
-        if cur is not None:
-            rec = w.tests.get(cur)
-            layer = rec['layer'] if rec else None
-            need = w.clo(layer)
-            exp_s = {j for j in need if w.has(j, 'testSetUp')}
-            exp_t = {j for j in need if w.has(j, 'testTearDown')}
-            if set(S) != exp_s or len(S) != len(set(S)):
-                viol.append(('C05/testSetUp-set', 'test %s: testSetUp called on %s, expected once on each of %s'
-                             % (cur, [w.names[j] for j in S], sorted(w.names[j] for j in exp_s))))
-            if set(T) != exp_t or len(T) != len(set(T)):
-                viol.append(('C05/testTearDown-set', 'test %s: testTearDown called on %s, expected once on each of %s'
-                             % (cur, [w.names[j] for j in T], sorted(w.names[j] for j in exp_t))))
-        else:
-            # bracket without a started test: only legitimate around a test that never starts
-            ok = False
-            for lay in skipped_layers:
-                need = w.clo(lay)
-                if set(S) == {j for j in need if w.has(j, 'testSetUp')} and \
-                        set(T) == {j for j in need if w.has(j, 'testTearDown')}:
-                    ok = True
-            if not ok and (S or T):
-                if not S:
-                    viol.append(('C05/teardown-without-setup',
-                                 'testTearDown on %s without any testSetUp and without a started test'
-                                 % [w.names[j] for j in T]))
-                else:
-                    viol.append(('C05/bracket-without-test', 'testSetUp %s / testTearDown %s around no test'
-                                 % ([w.names[j] for j in S], [w.names[j] for j in T])))
-        # order: bases first in S
+        need = w.clo(rec['layer'])
+        exp_s = {j for j in need if w.has(j, 'testSetUp')}
+        exp_t = {j for j in need if w.has(j, 'testTearDown')}
+        never_starts = not started and (rec['t']['k'] == 'skip_deco' or rec['skip_class'])
+        if never_starts and not S and not T:
+            return      # "neither" is accepted for a test that never starts
+        if set(S) != exp_s or len(S) != len(set(S)):
+            sig = 'C05/teardown-without-setup' if (never_starts and not S and T) else 'C05/testSetUp-set'
+            viol.append((sig, 'test %s: testSetUp called on %s, expected once on each of %s (testTearDown on %s)'
+                         % (cur, names(S), sorted(names(exp_s)), names(T))))
+        if set(T) != exp_t or len(T) != len(set(T)):
+            viol.append(('C05/testTearDown-set', 'test %s: testTearDown called on %s, expected once on each of %s'
+                         % (cur, names(T), sorted(names(exp_t)))))
         for a in range(len(S)):
             for b in range(a + 1, len(S)):
                 if w.is_base_of(S[b], S[a]):
                     viol.append(('C05/testSetUp-order', 'testSetUp of %s before its base %s (test %s)'
                                  % (w.names[S[a]], w.names[S[b]], cur)))
-        # mirrored in T
         for a in range(len(T)):
             for b in range(a + 1, len(T)):
                 x, y = T[a], T[b]
@@ -257,21 +245,39 @@ def check_per_test_hooks(w, events, skipped_layers=()):
                                  % (w.names[x], w.names[y], cur)))
                 elif x in S and y in S and S.index(x) < S.index(y):
                     viol.append(('C05/testTearDown-not-mirrored',
-                                 'testSetUp order %s but testTearDown order %s (test %s)'
-                                 % ([w.names[j] for j in S], [w.names[j] for j in T], cur)))
-        if test_events_after_td:
+                                 'testSetUp order %s but testTearDown order %s (test %s)' % (names(S), names(T), cur)))
+        if last_phase_after_T:
             viol.append(('C05/test-code-after-testTearDown', 'test %s ran code after testTearDown started' % cur))
-        S, T, cur, test_events_after_td = [], [], None, False
+        if setup_after_start:
+            viol.append(('C05/testSetUp-after-test-started', 'test %s: testSetUp called after the test\'s own setUp'
+                         % cur))
 
     for e in events:
-        if e['ev'] == 'L' and e['h'] in ('testSetUp', 'testTearDown') and e['ph'] == 'enter':
+        if e['ev'] == 'T':
+            if e['ph'] == 'run':
+                if cur is not None:
+                    close()
+                cur, S, T, started, last_phase_after_T, setup_after_start = e['id'], [], [], False, False, False
+            elif e['ph'] == 'ran':
+                if cur is not None:
+                    close()
+                cur = None
+            elif cur is not None:
+                if e['ph'] == 'setUp':
+                    started = True
+                if T:
+                    last_phase_after_T = True
+        elif e['ev'] == 'L' and e['h'] in ('testSetUp', 'testTearDown') and e['ph'] == 'enter':
             i = w.idx.get(e['layer'])
             if i is None:
                 continue
+            if cur is None:
+                viol.append(('C05/hook-outside-test', '%s of %s called outside any test' % (e['h'], e['layer'])))
+                continue
             if e['h'] == 'testSetUp':
-                if T or cur is not None or i in S:
-                    close()   # (i in S: a bracket around a never-started test had no testTearDown hooks)
                 S.append(i)
+                if started:
+                    setup_after_start = True
                 if w.has(i, 'testTearDown'):
                     counter[i] = counter.get(i, 0) + 1
                     if counter[i] > 1:
@@ -279,32 +285,15 @@ def check_per_test_hooks(w, events, skipped_layers=()):
                                      % e['layer']))
                         counter[i] = 1
             else:
-                if i in T:
-                    close()   # a second tear-down round without a testSetUp in between: separate bracket
-                elif cur is not None and not T and skipped_layers:
-                    rec = w.tests.get(cur)
-                    if rec is not None and i not in w.clo(rec['layer']):
-                        # belongs to a following never-started test whose stack has no testSetUp hook;
-                        # that bracket is validated on its own against the skipped tests' stacks
-                        close()
                 T.append(i)
                 if w.has(i, 'testSetUp'):
                     counter[i] = counter.get(i, 0) - 1
                     if counter[i] < 0:
                         viol.append(('C05/teardown-without-setup',
-                                     'testTearDown on %s without a matching testSetUp (after test %s)'
-                                     % (e['layer'], cur)))
+                                     'testTearDown on %s without a matching testSetUp (test %s)' % (e['layer'], cur)))
                         counter[i] = 0
-        elif e['ev'] == 'T':
-            if e['ph'] == 'setUp':
-                if T or cur is not None:
-                    close()
-                cur = e['id']
-            elif T:
-                test_events_after_td = True
-        elif e['ev'] == 'L' and e['h'] in ('setUp', 'tearDown') and e['ph'] == 'enter':
-            close()
-    close()
+    if cur is not None:
+        close()
     for i, c in counter.items():
         if c != 0:
             viol.append(('C05/unbalanced-at-end', 'layer %s: testSetUp/testTearDown not balanced at end (%+d)'
